@@ -18,7 +18,7 @@ TRUST_PY = [
 
 class Check:
     def __init__(self, prop: str, modules: List[str], level: str = "proof", trusted_base: Optional[List[str]] = None,
-                 assumptions: Optional[List[str]] = None, explanation: str = "", program_units=None):
+                 assumptions: Optional[List[str]] = None, explanation: str = "", program_units=None, standins=None):
         self.prop = prop
         self.modules = modules
         self.level = level
@@ -26,6 +26,13 @@ class Check:
         self.assumptions = assumptions or []
         self.explanation = explanation
         self.program_units = program_units
+        self.standins = standins or []
+
+    def extras(self, tier: str, seed: int) -> dict:
+        if not self.standins:
+            return {}
+        from . import standins as ST
+        return ST.run_standins(self.prop, [getattr(ST, n) for n in self.standins], tier, seed)
 
     def load(self):
         for m in self.modules:
@@ -97,7 +104,8 @@ def _build():
         ("C20", "contracts on Linter.lint (count, reports, no mutation), every lint rule, main's check-mode exit, _get_col / "
                 "current_indent (rfind by its specification)"),
     ]:
-        add(Check(pr, comp, explanation=ex))
+        add(Check(pr, comp, explanation=ex, standins={"C09": ["lexer_strings", "case_converters"], "C13": ["lexer_strings"],
+                                                     "C20": ["lexer_strings"]}.get(pr)))
     add(Check("C01", bp_mods + ["py_ast"], explanation="Python encoder layout: contracts on bp.py (leaf bit copier with quantified "
               "bit-view invariant; cursor/frame/call-order contracts of every processor class against the abstract "
               "process contract)"))
